@@ -8,3 +8,4 @@ from . import absolute
 from . import sequence
 from . import tokeniser
 from . import midi
+from . import elements
